@@ -71,6 +71,14 @@ def objectives(rng, n, mix=None):
     return o
 
 
+def int_labels(rng, k, base=None):
+    """labels that are whole numbers (years, ids): legitimate and common.  Never a number that is also a POSITION (0..k-1):
+    `dm.alternatives[k]` / `dm.criteria[k]` are documented to treat a key contained in the labels as a label, so such labels are
+    ambiguous by design."""
+    base = rng.choice([1000, 2000, 10 ** 6]) if base is None else base
+    return [base + i for i in rng.sample(range(0, max(k, 1) * 3), k)]
+
+
 def weights(rng, n, family="dyadic", distinct=True):
     if family == "dyadic":
         pool = rng.sample(range(1, 33), n) if distinct else [rng.randint(1, 32) for _ in range(n)]
@@ -79,7 +87,7 @@ def weights(rng, n, family="dyadic", distinct=True):
 
 
 def dm_case(rng, m=None, n=None, family=None, positive=True, mix=None, ties=0.3, dups=0.15, dominated=0.0,
-            max_m=12, max_n=6, min_m=1, min_n=1):
+            max_m=12, max_n=6, min_m=1, min_n=1, int_label_rate=0.0, zero_weight_rate=0.0):
     m = m or rng.randint(min_m, max_m)
     n = n or rng.randint(min_n, max_n)
     family = family or rng.choice(["dyadic", "dyadic", "float"])
@@ -92,13 +100,21 @@ def dm_case(rng, m=None, n=None, family=None, positive=True, mix=None, ties=0.3,
         if positive:
             mat = [[max(x, 1.0) for x in row] for row in mat]
         int_matrix = True
+    wts = weights(rng, n, family)
+    if zero_weight_rate and rng.random() < zero_weight_rate:
+        wts = [0.0 if rng.random() < 0.5 else w for w in wts]  # criteria switched off
+    alts, crits = labels(rng, LABEL_POOL_ALT, m), labels(rng, LABEL_POOL_CRIT, n)
+    if int_label_rate and rng.random() < int_label_rate:
+        alts = int_labels(rng, m)
+    if int_label_rate and rng.random() < int_label_rate:
+        crits = int_labels(rng, n)
     return {
         "matrix": mat,
         "int_matrix": int_matrix,
         "objectives": objs,
-        "weights": weights(rng, n, family),
-        "alternatives": labels(rng, LABEL_POOL_ALT, m),
-        "criteria": labels(rng, LABEL_POOL_CRIT, n),
+        "weights": wts,
+        "alternatives": alts,
+        "criteria": crits,
         "family": family,
     }
 
@@ -134,18 +150,62 @@ def _dtype(case):
     return int if _whole(case) else float
 
 
+def lab(x):
+    """canonical form of a label that keeps its type: a string is itself, a whole number is `int:<n>` (so that 2019 and "2019"
+    differ), anything else `<type>:<repr>`"""
+    import numbers
+
+    if isinstance(x, str):
+        return x
+    if isinstance(x, numbers.Integral) and not isinstance(x, bool):
+        return f"int:{int(x)}"
+    return f"{type(x).__name__}:{x!r}"
+
+
+def _perm(h, k):
+    """a permutation of range(k) derived from the integer h (Lehmer code)"""
+    items, out = list(range(k)), []
+    for i in range(k, 0, -1):
+        h, r = divmod(h, i)
+        out.append(items.pop(r))
+    return out
+
+
 def mkdm(case):
+    """the DecisionMatrix of a case.  A third of the cases (chosen deterministically from the case) do not build it directly:
+    the problem is first written down with its criteria and alternatives in ANOTHER order and the intended listing is then
+    selected out of that matrix through the public selection API (`dm[crits]`, `.loc`, `.iloc`, sometimes followed by
+    `.copy()`).  The oracles always work on the case itself, so a selection that mixes up objectives, weights, columns or rows
+    shows as a violation of whatever property is being checked on the derived problem."""
+    import hashlib
+
     import skcriteria as skc
 
+    A = case["matrix"]
+    m, n = len(A), len(case["objectives"])
+    al, cr = list(case["alternatives"]), list(case["criteria"])
+    objs, wts = objective_aliases(case), list(case["weights"])
+    h = int(hashlib.sha1(repr(("via", cr, al, case["objectives"], wts)).encode()).hexdigest(), 16)
+    via = h % 9 if case.get("via", True) and len(set(map(repr, al))) == m and len(set(map(repr, cr))) == n else 0
     with warnings.catch_warnings():
         warnings.simplefilter("ignore")
-        return skc.mkdm(
-            np.array(case["matrix"], dtype=_dtype(case)),
-            objective_aliases(case),
-            weights=np.array(case["weights"], dtype=float),
-            alternatives=list(case["alternatives"]),
-            criteria=list(case["criteria"]),
+        if via not in (1, 2, 3) or m * n == 0:
+            return skc.mkdm(np.array(A, dtype=_dtype(case)), objs, weights=np.array(wts, dtype=float), alternatives=al, criteria=cr)
+        sg, tau = _perm(h >> 8, m), _perm(h >> 40, n)
+        dm0 = skc.mkdm(
+            np.array([[A[i][j] for j in tau] for i in sg], dtype=_dtype(case)),
+            [objs[j] for j in tau],
+            weights=np.array([wts[j] for j in tau], dtype=float),
+            alternatives=[al[i] for i in sg],
+            criteria=[cr[j] for j in tau],
         )
+        if via == 1:
+            dm = dm0[cr].loc[al]
+        elif via == 2:
+            dm = dm0.loc[al, cr]
+        else:
+            dm = dm0.iloc[[sg.index(i) for i in range(m)], [tau.index(j) for j in range(n)]]
+        return dm.copy() if (h >> 4) % 2 else dm
 
 
 def err_name(e: BaseException) -> str:
